@@ -2,7 +2,8 @@ SPEC = {
     'module': 'EV.Props.C02',
     'theorems': ['EV.Index.C02_spec_ordered', 'EV.Index.C02_advance', 'EV.Index.C02_flush', 'EV.Index.C02_backup',
                  'EV.Index.C02_history', 'EV.Index.C02_init',
-                 'EV.Index.C01run_refinement', 'EV.Index.C01run_observables', 'EV.Index.C01run_resolve', 'EV.Index.C01run_file_readers'],
+                 'EV.Index.C01run_refinement', 'EV.Index.C01run_observables', 'EV.Index.C01run_resolve', 'EV.Index.C01run_file_readers',
+                 'EV.SyncLoop.C01sync_observables'],
     'claims': {'exclude_tags': ['after_backup', 'after_restart', 'window'], 'violation_tags': ['history', 'files']},
     'suites': ['index', 'sync'],
     'design_ref': 'DESIGN.md §6 C02',
@@ -11,6 +12,6 @@ SPEC = {
         'the per-tx script-hash lists handed to add_unflushed are the specification\'s touched lists (C01_block)',
     ],
     'level_text': 'proof: the invariant "rows of a script hash in flush-id order ++ unflushed tail = specification history (complete, ascending, duplicate-free)" is proved to hold initially and to be preserved by add_unflushed for every block, by every History.flush (history-only or full, any number: a history split over arbitrarily many rows), and by History.backup; get_txnums with any limit is proved to return exactly the specification history or its first limit entries.  The tx-number -> (hash, height) resolution through the tx_counts array and the hashes file is proved for every run of advances and flushes (C01run_resolve, C01run_file_readers), and limited_history = specification history is part of the whole-run theorem C01run_observables.',
-    'level_note': 'server-level glue (fetch loop, flush policy under cache pressure, on_caught_up, reorg_chain, clean restarts) is not modelled in Lean: it is judged by suite sync on the real processing task against the Lean specification of the chain at every moment clients are told a height; trusted: Lean kernel + 3 axioms; model/code tie by suite index on a real LevelDB; LevelDB key order = (hashX, big-endian flush id) order',
+    'level_note': 'the forward part of the server glue (advance_blocks with forced flushes, on_caught_up) is modelled (EV.SyncLoop) and tied by trace replay; reorg_chain, the fetch loop and restarts are judged by suite sync on the real processing task against the Lean specification of the chain at every moment clients are told a height; trusted: Lean kernel + 3 axioms; model/code tie by suite index on a real LevelDB; LevelDB key order = (hashX, big-endian flush id) order',
     'technique': 'Lean 4 inductive invariant over flush/advance/backup + differential correspondence',
 }
